@@ -12,6 +12,7 @@ import (
 	"net"
 	"net/url"
 	"runtime"
+	"strconv"
 	"strings"
 	"sync"
 	"time"
@@ -717,7 +718,7 @@ func hsWriteFail(c *ctx, who string, wbuf, k int) {
 	var err error
 	res := fzRun(func() error {
 		switch who {
-		case "up", "uprej":
+		case "up", "uprej", "uphdr600", "uphdr1100", "uphdr5000":
 			req := hsRequest
 			if who == "uprej" {
 				req = strings.Replace(req, "Upgrade: websocket", "Upgrade: nonsense", 1)
@@ -726,7 +727,12 @@ func hsWriteFail(c *ctx, who string, wbuf, k int) {
 				io.Reader
 				io.Writer
 			}{newChunkReader([]byte(req), "-", "eof"), dst}
-			_, err = ws.Upgrader{WriteBufferSize: wbuf, Protocol: func(p []byte) bool { return string(p) == "chat" }}.Upgrade(rw)
+			up := ws.Upgrader{WriteBufferSize: wbuf, Protocol: func(p []byte) bool { return string(p) == "chat" }}
+			if strings.HasPrefix(who, "uphdr") { // a long extra header: bufio writes what exceeds its buffer directly
+				n, _ := strconv.Atoi(who[5:])
+				up.Header = ws.HandshakeHeaderBytes([]byte("X-Long: " + strings.Repeat("x", n) + "\r\n"))
+			}
+			_, err = up.Upgrade(rw)
 		default:
 			u, _ := url.Parse("ws://example.com/chat")
 			rec := newRecWriter()
